@@ -340,7 +340,7 @@ class World:
                            cwd=self.root, timeout=40)
         return p.returncode, p.stdout, p.stderr, (open(log).read().split("\n") if os.path.exists(log) else None)
 
-    def traced(self, lib, env, patt=None):
+    def traced(self, lib, env, patt=None, relative=False):
         import subprocess
         d = os.path.join(self.root, "data")
         shutil.rmtree(d, ignore_errors=True)
@@ -357,7 +357,7 @@ class World:
         if patt:
             opts += ["--match", patt]
         cmd = ["timeout", "30", self.uft, "record", "--no-pager", "--no-event", "--libmcount-path=" + self.objdir,
-               "-d", d] + opts + [self.prog, log]
+               "-d", d] + opts + ["main/prog.py" if relative else self.prog, log]   # relative: main_dir by realpath()
         p = subprocess.run(cmd, env=self.env(), capture_output=True, text=True, cwd=self.root, timeout=60)
         if p.returncode != 124 and os.path.isdir(d) and not [f for f in os.listdir(d) if f.endswith(".dat")]:
             # no task data at all: legitimate when nothing is selected; seen once as a transient on a loaded
@@ -497,10 +497,10 @@ def evaluate(ctx, ecases, name="ecases"):
     return {k: coq.parse_nat_list(v) for k, v in res.items()}
 
 
-def one_config(ctx, w, prog, nat, lib, env, patt=None):
+def one_config(ctx, w, prog, nat, lib, env, patt=None, relative=False):
     """run one traced configuration; returns an ecase dict or None after reporting"""
     rc, out, err, log = nat
-    t = w.traced(lib, env, patt)
+    t = w.traced(lib, env, patt, relative)
     rep = {"mode": "e2e", "program": prog["src"], "ending": prog["ending"], "libcall": lib, "filters": env, "match": patt,
            "cmd": t["cmd"]}
     if t["rc"] == 124:
@@ -626,7 +626,7 @@ def run(ctx, objdir):
         if k is not None:
             ecases.append(k)
             ctx.case(key=("e2e-fixed", "os._exit", lib), tags=["e2e:fixed-os._exit", "e2e:lib:" + lib])
-    nprog = ctx.n(6, 48)
+    nprog = ctx.n(6, 44)
     for pi in range(nprog):
         prog = gen_program(rng)
         w.write(prog)
@@ -639,14 +639,14 @@ def run(ctx, objdir):
         for ci in range(nconf):
             lib, env, patt = gen_options(rng, prog, allow_mixed=True, logged=logged,
                                          plain_lib=["NESTED", "SINGLE", "NONE"][pi % 3] if ci == 0 else None)
-            k = one_config(ctx, w, prog, nat, lib, env, patt)
+            k = one_config(ctx, w, prog, nat, lib, env, patt, relative=(pi % 2 == 1))
             if k is None:
                 continue
             ecases.append(k)
             fk = "none" if env is None else "mixed" if any(e.startswith("!") for e in env) and not all(e.startswith("!") for e in env) \
                 else "N" if env[0].startswith("!") else "F"
             ctx.case(key=("e2e", prog["src"], lib, tuple(env or ()), patt), tags=["e2e:" + t for t in prog["tags"]] +
-                     ["e2e:lib:" + lib, "e2e:filter:" + fk, "e2e:match:" + str(patt)], size=len(nat[3]),
+                     ["e2e:lib:" + lib, "e2e:filter:" + fk, "e2e:match:" + str(patt), "e2e:script-path:" + ("relative" if pi % 2 else "absolute")], size=len(nat[3]),
                      sample={"e2e_cmd": k["rep"]["cmd"], "log_lines": len(nat[3])} if len(ctx.samples) < 5 else None)
     res = evaluate(ctx, ecases)
     verdict(ctx, ecases, res)
